@@ -648,6 +648,8 @@ fn generate_moves_for_piece(
                     Black => Point(mov.0 - 1, mov.1),
                 };
 
+                // remove a target left by the previous move from the key before recording the new one
+                new_board.unset_pawn_double_move(zobrist_hasher);
                 new_board.pawn_double_move = Some(en_passant_square);
                 new_board.zobrist_key ^= zobrist_hasher.get_val_for_en_passant(en_passant_square.1);
             } else {
